@@ -1641,10 +1641,11 @@ namespace avel {
         #elif defined(AVEL_SSE2)
         auto v_bits = _mm_castps_si128(decay(v));
 
-        auto is_v_zero = _mm_cmpeq_epi32(v_bits, _mm_setzero_si128());
+        // Zeros of either sign are returned unchanged with an exponent of 0
+        auto abs_mask = _mm_set1_epi32(float_sign_bit_mask_bits);
+        auto is_v_zero = _mm_cmpeq_epi32(_mm_andnot_si128(abs_mask, v_bits), _mm_setzero_si128());
 
         // Check if v is subnormal
-        auto abs_mask = _mm_set1_epi32(float_sign_bit_mask_bits);
         auto flt_min_bits = _mm_set1_epi32(0x800000);
         auto is_subnormal = _mm_cmplt_epi32(_mm_andnot_si128(abs_mask, v_bits), flt_min_bits);
 
